@@ -3,9 +3,8 @@ C14 (addresses) — metadata addresses convert between bytes and their component
 loss, and every derived address matches its parent.
 
 All statements are for ALL uuids (any 16 bytes), ALL names, ALL byte strings and EVERY hash
-function `sha` (sha256 is never assumed to have any property).  The bech32 text form is the
-`cosmos/btcutil` library and is covered by the correspondence run only (verdict
-`bech32_roundtrip` in `PvModel.MdAddrDriver`).
+function `sha` (sha256 is never assumed to have any property).  The bech32 text form is in
+`PvProofs.C14Bech32` (`fromBech32_toString`).
 -/
 import PvProofs.Lemmas.MdAddr
 
